@@ -33,3 +33,8 @@ pub mod arch {
 pub mod arch_steps {
     include!(concat!(env!("BROOD_VERIF_DIR"), "/harness/arch_steps.rs"));
 }
+
+#[cfg(kani)]
+pub mod world {
+    include!(concat!(env!("BROOD_VERIF_DIR"), "/harness/world.rs"));
+}
